@@ -372,6 +372,10 @@ func genWModels(rng *rand.Rand, n int) []*Model {
 			ms[i] = GenNestedOps(rng)
 			continue
 		}
+		if i%8 == 5 {
+			ms[i] = GenSharedTarget(rng)
+			continue
+		}
 		if k := rng.Intn(10); k < 2 {
 			ms[i] = GenGraphModel(rng)
 		} else if k < 4 {
